@@ -54,6 +54,7 @@ pub struct BfsResult {
     pub stats: BfsStats,
     pub violations: Vec<Violation>,
     pub sample_paths: Vec<Value>,
+    pub deepest_path: Vec<usize>,
 }
 
 struct Node {
@@ -250,7 +251,8 @@ pub fn bfs<Y: System>(sys: &Y, max_states: u64, deadline: &(dyn Fn() -> bool + S
             json!({"system": sys.name(), "path_to_a_deepest_state": p.iter().map(|&a| sys.action_json(a)).collect::<Vec<_>>()})
         })
         .collect();
-    BfsResult { stats, violations, sample_paths }
+    let deepest_path = path_of(&nodes, (nodes.len() - 1) as u32);
+    BfsResult { stats, violations, sample_paths, deepest_path }
 }
 
 /// Re-executes a recorded path from the initial state, returning every oracle failure on the way.
